@@ -378,7 +378,8 @@ impl<const N: u32> PxE2<{ N }> {
             // Assemble the result and return it.
             let mut u_a = ui_z | (exp_z << (27 - shift)) | ((frac64_z >> (5 + shift)) as u32);
             //Check if rounding bits in regime or exp and clean off unwanted bits
-            if (((0x_8000_0000_u32 >> N) & u_a) != 0)
+            if (N < 32)
+                && (((0x_8000_0000_u32 >> N) & u_a) != 0)
                 && ((((0x_8000_0000_u32 >> (N - 1)) & u_a) != 0)
                     || (((0x_7FFF_FFFF_u32 >> N) & u_a) != 0))
             {
